@@ -211,6 +211,16 @@ def sweep_high_slots(quick):
     for k, top in tops.items():
         for v in sorted({top, top // 2, top // 2 + 1, 7}):
             yield {"sweep": "highslots", "model": model(**{k: v}), "flips": [k, v]}
+    # orphan performances (referenced by no volume) behind free slots of the performance directory
+    for owned, orphans in (([0], [2]), ([0], [1, 5]), ([], [3]), ([1], [0, 511]), ([4], [2, 6, 7])):
+        m = {"volumes": [{"name": "VOL", "perfs": list(owned)}] if owned else [], "performances": {}, "patches": {}, "partials": {}, "samples": {},
+             "count_mode": "max"}
+        for k, pi in enumerate(list(owned) + list(orphans)):
+            m["performances"][pi] = {"name": "PERF%d" % pi, "patches": [k]}
+            m["patches"][k] = {"name": "PATCH%d" % k, "partials": [k]}
+            m["partials"][k] = {"name": "PART%d" % k, "samples": [k]}
+            m["samples"][k] = {"name": "SMP%d" % k, "chain": [2 + k], "points": [0, 0, 100 + k, 0, 9], "mode": 0, "seq": 5 + k}
+        yield {"sweep": "highslots", "model": m, "flips": ["orphans-behind-free-slots", list(owned), list(orphans)]}
     yield {"sweep": "highslots", "model": model(**tops), "flips": ["all-top"]}
     yield {"sweep": "highslots", "model": model(vol=3), "flips": ["vol", 3]}
 
@@ -316,7 +326,7 @@ class Check(CheckBase):
             "volume->performance->patch->partial->sample relations [thorough: all pairs of flips], no volumes, four "
             "samples per partial, unreferenced sample, orphan performance; (slots) every assignment of a partial's four sample "
             "slots over {unused, 3 samples}, sparse and completely filled partial / patch / performance lists incl. the last slot; (fatheader) "
-            "free-cluster count word x FAT version x chain length 1,2,4 x order; (highslots) items in the highest / middle slots of each directory area (performance 511, patch 1023, partial 4095, sample 8191); (sharedchain) two samples in one chain: 6 chain orders x 6 offset pairs x same partial / other performance; (names) 9 families of special name shapes x "
+            "free-cluster count word x FAT version x chain length 1,2,4 x order; (highslots) items in the highest / middle slots of each directory area (performance 511, patch 1023, partial 4095, sample 8191), orphan performances behind free directory slots; (sharedchain) two samples in one chain: 6 chain orders x 6 offset pairs x same partial / other performance; (names) 9 families of special name shapes x "
             "3 volume/performance names, judged by content only; the window, topology, slots, names and sharedchain cases export "
             "twice from one image object and the second export must equal the first. non-trivial = permuted chain, cluster_top>0, "
             "reverse mode, window ending on a cluster boundary, or a flipped edge")
